@@ -341,9 +341,9 @@ class StreamableHTTPTransport(Transport):
 
                     if not line:
                         # Empty line marks end of event
-                        if current_event and event_data:
+                        if event_data:
                             await self._process_sse_event(
-                                current_event, event_data, message_id
+                                current_event or "message", event_data, message_id
                             )
                         current_event = None
                         event_data = []
@@ -360,8 +360,10 @@ class StreamableHTTPTransport(Transport):
                         event_data.append(data)
 
             # Process any remaining event
-            if current_event and event_data:
-                await self._process_sse_event(current_event, event_data, message_id)
+            if event_data:
+                await self._process_sse_event(
+                    current_event or "message", event_data, message_id
+                )
 
         except Exception as e:
             logger.error(f"Error processing SSE response: {e}")
@@ -384,9 +386,9 @@ class StreamableHTTPTransport(Transport):
 
                 if not line:
                     # Empty line marks end of event
-                    if current_event and event_data:
+                    if event_data:
                         await self._process_sse_event(
-                            current_event, event_data, message_id
+                            current_event or "message", event_data, message_id
                         )
                     current_event = None
                     event_data = []
@@ -403,8 +405,10 @@ class StreamableHTTPTransport(Transport):
                     event_data.append(data)
 
             # Process any remaining event
-            if current_event and event_data:
-                await self._process_sse_event(current_event, event_data, message_id)
+            if event_data:
+                await self._process_sse_event(
+                    current_event or "message", event_data, message_id
+                )
 
         except Exception as e:
             logger.error(f"Error processing SSE text: {e}")
